@@ -4,6 +4,7 @@ A Placement.tla "done" state is an instance:
     ring  : tuple of owners (host numbers 1..n), position i has token 2*i
     dc    : tuple host -> datacenter number,  rack : tuple host -> rack number
     strat : {"kind": "Simple", "rf": n} | {"kind": "NTS", "rfs": (rf of dc 1, rf of dc 2, ...)}
+    hist  : every setting the keyspace has had, oldest first (AlterReplication); strat is the last one
     expected : per ring position the replica set (host numbers)
     byKey    : per key position 1..2L+1 the replica set
 
@@ -89,6 +90,30 @@ def build_metadata(ring, hosts, strategies, shuffle_rng=None):
     return md, names
 
 
+class _AllKeyspaces(object):
+    """The part of a schema parser Metadata._rebuild_all reads."""
+
+    def __init__(self, metas):
+        self._metas = metas
+
+    def get_all_keyspaces(self):
+        return list(self._metas)
+
+
+def install_keyspace(md, name, strat, via="update"):
+    """Install (new) replication settings for keyspace `name` the way a schema refresh does:
+    via="update"      Metadata._update_keyspace(meta)   (refresh of one keyspace / CREATE, ALTER KEYSPACE events)
+    via="rebuild_all" Metadata._rebuild_all(parser)     (full schema refresh)"""
+    md_mod = repo_import("cassandra.metadata")
+    cls, opts = strategy_options(strat)
+    meta = md_mod.KeyspaceMetadata(name, True, cls, opts)
+    if via == "rebuild_all":
+        md._rebuild_all(_AllKeyspaces([meta]))
+    else:
+        md._update_keyspace(meta)
+    return meta
+
+
 def number_of(hosts):
     return {id(v): k for k, v in hosts.items()}
 
@@ -103,17 +128,24 @@ def replicas_by_key(md, ksname, hosts, L):
     return out
 
 
-def instance_of(state):
-    """JSON-able instance from a TLC state dict."""
-    s = state["strat"]
+def strat_of(s):
     strat = {"kind": str(s["kind"])}
     if strat["kind"] == "Simple":
         strat["rf"] = int(s["rf"])
     else:
         strat["rfs"] = [int(x) for x in s["rfs"]]
-    return {"ring": [int(x) for x in state["ring"]], "dc": [int(x) for x in state["dc"]],
+    return strat
+
+
+def instance_of(state):
+    """JSON-able instance from a TLC state dict (with "hist": all settings the keyspace had, when altered)."""
+    strat = strat_of(state["strat"])
+    inst = {"ring": [int(x) for x in state["ring"]], "dc": [int(x) for x in state["dc"]],
             "rack": [int(x) for x in state["rack"]], "strat": strat,
             "byKey": [sorted(int(h) for h in state["byKey"][k]) for k in range(len(state["byKey"]))]}
+    if "hist" in state and len(state["hist"]) > 1:
+        inst["hist"] = [strat_of(h) for h in state["hist"]]
+    return inst
 
 
 def evaluate(inst, shuffle_rng=None):
@@ -122,7 +154,11 @@ def evaluate(inst, shuffle_rng=None):
     L = len(inst["ring"])
     hosts = make_hosts(inst["dc"], inst["rack"])
     try:
-        md, names = build_metadata(inst["ring"], hosts, [inst["strat"]], shuffle_rng)
+        hist = inst.get("hist") or [inst["strat"]]
+        md, names = build_metadata(inst["ring"], hosts, [hist[0]], shuffle_rng)
+        for n, s in enumerate(hist[1:]):
+            replicas_by_key(md, names[0], hosts, L)          # lookups under the old settings (fills the replica cache)
+            install_keyspace(md, names[0], s, via="rebuild_all" if (n + len(inst["ring"])) % 2 else "update")
         got = replicas_by_key(md, names[0], hosts, L)
     except Exception as ex:                                  # a broken driver must not crash the check
         return [{"key": 0, "spec": None, "code": "%s: %s" % (type(ex).__name__, ex), "why": "exception"}]
